@@ -110,6 +110,9 @@ class Result:
   def __deepcopy__(self, memo):
     return self
 
+  def __bool__(self):
+    return False        # results are deliberately falsy: nothing in gin may depend on the truth value of a value
+
 
 class World:
 
